@@ -50,7 +50,7 @@ pub fn run(data: &[u8], fam: Family) {
     let c = ctx();
     let case = decode_case(data, fam);
     // no counting allocator in this build (ASan owns the heap): C18 is not evaluated here
-    let r = run_case(&case, false, false);
+    let r = run_case(&case, false, false, c.fatal);
     if let Some(path) = &c.summary {
         let mut st = c.stats.lock().unwrap();
         st.0 += 1;
